@@ -403,6 +403,7 @@ def c03_worker(res: Result, i: int, n: int) -> None:
                 distinct.add(hashlib.sha256(cls.__module__.encode() + cls.__name__.encode() + wire).digest()[:12])
             if res.counters["cases"] % 4001 == 1:
                 res.sample({"class": walk.class_path(cls), "tree": tree, "wire": wire})
+        _c03_mutation_derived(res, cls, spec, rng, trees[: 6 if res.tier == "quick" else 40], 10 if res.tier == "quick" else 30)
         for k in stats_total:
             stats_total[k] += g.stats[k]
         for d, c in g.stats["unknown_by_depth"].items():
@@ -416,6 +417,52 @@ def c03_worker(res: Result, i: int, n: int) -> None:
     res.coverage["nondefault_tags_sent"] = stats_total["nondefault_tags"]
     res.coverage["subsecond_timestamps_or_durations"] = subsecond
     res.coverage["distinct_nontrivial_encodings"] = len(distinct)
+
+
+def _c03_mutation_derived(res: Result, cls: type, spec: describe.StructSpec, rng, trees: list, per_tree: int) -> None:  # noqa: ANN001
+    """More conforming inputs, found rather than constructed: mutate valid encodings and keep what the *strict reference decoder*
+    still accepts (whole input consumed, every value inside the wire domain); kio must decode those to exactly the same values."""
+    from kio.serial import entity_reader
+
+    from .faults import _mutate
+
+    bases = []
+    for tree in trees:
+        try:
+            raw, layout = refcodec.encode(spec, tree)
+        except refcodec.RefCodecError:
+            continue
+        if len(raw) <= 4096:
+            bases.append((raw, layout))
+    if not bases:
+        return
+    for _ in range(per_tree * len(bases)):
+        raw, layout = rng.choice(bases)
+        data, kind = _mutate(rng, raw, layout, rng.choice(bases)[0])
+        if data == raw:
+            continue
+        res.count("mutation_candidates")
+        try:
+            want, used = refcodec.decode(spec, data)
+        except refcodec.NonConforming:
+            continue
+        except Exception:  # noqa: BLE001
+            continue
+        if used != len(data) or not gen.tree_in_wire_domain(spec, want):
+            continue
+        res.count("mutation_derived_conforming")
+        try:
+            dec = entity_reader(cls)(io.BytesIO(data))
+            back = describe.instance_to_tree(spec, dec)
+            ok = bits_equal_tree(back, want)
+            why = f"decoded value differs at {_diff_path(back, want)}"
+        except Exception as exc:  # noqa: BLE001
+            ok = False
+            why = f"raised {exc!r}"
+        if not ok:
+            res.violation(f"mutation-derived:{cls.__name__}:{why.split('(')[0][:40]}",
+                          f"{walk.class_path(cls)}: an encoding obtained by mutation ({kind}) that the strict reference decoder accepts as conforming: kio {why}",
+                          {"class": walk.class_path(cls), "tree": want, "wire": data, "mutation": kind})
 
 
 def _eq_or_nan(dec: object, expected: object, spec: describe.StructSpec, tree: dict) -> bool:
@@ -615,7 +662,8 @@ RULES = {
            "distinct = distinct (class, encoding) with at least one non-default/non-empty field",
     "C03": "wire-first: trees over the in-range wire domain encoded by the reference codec with explicit defaults and "
            "unknown tagged fields at every nesting level, every presence pattern of each class's own tags; kio must "
-           "decode to exactly the wire values; distinct = distinct (class, wire bytes) non-trivial",
+           "decode to exactly the wire values; plus mutation-derived inputs that the strict reference decoder accepts as conforming; failed calls of the "
+           "same class are interleaved; distinct = distinct (class, wire bytes) non-trivial",
     "C05": "wire-first canonical encodings biased to lossy-prone values; encode(decode(b)) == b and idempotence "
            "(also on non-canonical conforming inputs); distinct = distinct (class, wire bytes) non-trivial",
 }
@@ -640,7 +688,7 @@ def run(prop: str, tier_: str) -> int:
         floor_ok = floor_ok and c.get("derived_cases", 0) > 0
     if prop == "C01" and not c.get("cases_with_tail"):
         floor_ok = False
-    return res.finish(c.get("cases", 0) + c.get("noncanonical_cases", 0),
+    return res.finish(c.get("cases", 0) + c.get("noncanonical_cases", 0) + c.get("mutation_derived_conforming", 0),
                       int(res.coverage.get("distinct_nontrivial_encodings", 0)), RULES[prop], floor_ok)
 
 
